@@ -4,7 +4,7 @@ import json, glob, os
 rows = []
 for m in sorted(glob.glob('/verif/benign/*/*/meta.json')):
     d = json.load(open(m))
-    rows.append((d.get('property', '?'), os.path.basename(os.path.dirname(m)), d.get('kind', '').replace('|', '/'), d.get('summary', '').replace('|', '/')[:260], d.get('check_result', '?'), ",".join(d.get('checked_properties', []))))
+    rows.append((os.path.basename(os.path.dirname(os.path.dirname(m))), os.path.basename(os.path.dirname(m)), d.get('kind', '').replace('|', '/'), d.get('summary', '').replace('|', '/')[:260], d.get('check_result', '?'), ",".join(d.get('checked_properties', []))))
 out = ["# Behaviour-preserving refactors (no check may report them)", "",
        "Produced by fresh sub-agents asked for refactors of the property's anchor functions that keep behaviour identical for all inputs (tests of the touched packages pass). `tools/benign_check.py` applies each in the scratch worktree and runs the checks (`ALL=1`: every property's check). A report on one of these is a false alarm of the machinery.", "",
        "| property | id | kind | change | checks | properties run |", "|---|---|---|---|---|---|"]
